@@ -1140,3 +1140,110 @@ Proof.
     + destruct (val =? 0); [exact S1|]. destruct (fst zs); [exact S1|exact A3].
     + destruct (val =? 0); [exact R1|]. destruct (fst zs); [exact R1|exact B3].
 Qed.
+
+(* ================================================================ source index = target index: the column is scaled *)
+Lemma c_scale_content p v c q : 0 < p -> c_get p (c_scale p v c) q = (v * c_get p c q) mod p.
+Proof.
+  intros Hp. unfold c_scale.
+  assert (Hz : v mod p = 0 -> forall x, 0 = (v * x) mod p).
+  { intros H x. rewrite <- Zmult_mod_idemp_l, H. reflexivity. }
+  assert (Hs : forall l, sget (map (fun e => (fst e, fmul p (snd e) (v mod p))) l) q = (v * sget l q) mod p).
+  { intros l. rewrite (sget_map (fun x => fmul p x (v mod p))). destruct (shas l q) eqn:E.
+    - unfold fmul. rewrite Zmult_mod_idemp_r. f_equal. lia.
+    - rewrite (sget_shas_false l q E), Z.mul_0_r. reflexivity. }
+  destruct c as [l|h|z]; cbn [c_get].
+  - destruct (v mod p =? 0) eqn:E; cbn [c_get]; [apply Hz; lia|apply Hs].
+  - destruct (v mod p =? 0) eqn:E; cbn [c_get fst]; [apply Hz; lia|].
+    rewrite hsum_scale by exact Hp. rewrite Zmult_mod_idemp_l. reflexivity.
+  - destruct (v mod p =? 0) eqn:E; cbn [c_get]; [apply Hz; lia|].
+    unfold lz_get. cbn [fst snd]. destruct (zmem q (snd z)); [rewrite Z.mul_0_r; reflexivity|apply Hs].
+Qed.
+
+Theorem matrix_self_add_refines p nr m t ct : 0 < p -> 0 <= t -> a_col m t = Some ct ->
+  match a_add p m t t with Some m' => Some (a_abs p nr m') = d_add p (a_abs p nr m) t t | None => False end.
+Proof.
+  intros Hp Ht0 Ht. unfold a_add, d_add. rewrite Z.eqb_refl.
+  apply a_upd2_refines with ct ct; try assumption. intros q. rewrite c_scale_content by exact Hp. f_equal. lia.
+Qed.
+Theorem matrix_self_mul_target_refines p nr m c t ct : 0 < p -> 0 <= t -> a_col m t = Some ct ->
+  match a_mta p m t c t with Some m' => Some (a_abs p nr m') = d_mta p (a_abs p nr m) t c t | None => False end.
+Proof.
+  intros Hp Ht0 Ht. unfold a_mta, d_mta. rewrite Z.eqb_refl.
+  apply a_upd2_refines with ct ct; try assumption. intros q. rewrite c_scale_content by exact Hp. f_equal. lia.
+Qed.
+Theorem matrix_self_mul_source_refines fl p nr m c t ct : 0 < p -> 0 <= t -> a_col m t = Some ct ->
+  match a_msa fl p m c t t with Some m' => Some (a_abs p nr m') = d_msa p (a_abs p nr m) c t t | None => False end.
+Proof.
+  intros Hp Ht0 Ht. unfold a_msa, d_msa. rewrite Z.eqb_refl.
+  apply a_upd2_refines with ct ct; try assumption. intros q. rewrite c_scale_content by exact Hp. f_equal. lia.
+Qed.
+
+(* ================================================================ zero_entry (through the row dictionary) and zero_column *)
+Lemma sget_sdel l q q' : sget (sdel l q) q' = if q' =? q then 0 else sget l q'.
+Proof.
+  unfold sdel. induction l as [|[r0 v] t IH]; cbn [filter sget fst]; [destruct (q' =? q); reflexivity|].
+  destruct (r0 =? q) eqn:E1; cbn [negb].
+  - rewrite IH. destruct (q' =? q) eqn:E2; [reflexivity|]. assert (r0 =? q' = false) as -> by lia. reflexivity.
+  - cbn [sget]. rewrite IH. destruct (r0 =? q') eqn:E3; [|reflexivity]. assert (q' =? q = false) as -> by lia. reflexivity.
+Qed.
+Lemma c_clear_row_content fl p c q q' : 0 < p ->
+  c_get p (c_clear_row fl p c q) q' = if q' =? q then 0 else c_get p c q'.
+Proof.
+  intros Hp. destruct c as [l|h|z]; cbn [c_clear_row c_get].
+  - apply sget_sdel.
+  - apply heap_clear_row_content. exact Hp.
+  - destruct (f_ra fl) eqn:Era.
+    + unfold lz_clear_row. destruct (shas (lz_live z) q) eqn:E.
+      * unfold lz_get. cbn [fst snd]. rewrite sget_sdel. destruct (zmem q' (snd z)); destruct (q' =? q); reflexivity.
+      * destruct (q' =? q) eqn:E2; [|reflexivity]. assert (q' = q) by lia. subst q'.
+        rewrite lz_get_live. apply sget_shas_false. exact E.
+    + apply lazyvec_clear_content.
+Qed.
+Lemma dget_dset v r x k : 0 <= r < Z.of_nat (length v) -> 0 <= k -> dget (dset v r x) k = if k =? r then x else dget v k.
+Proof.
+  intros Hr Hk. unfold dget, dset. assert (r <? 0 = false) as -> by lia. assert (k <? 0 = false) as -> by lia.
+  rewrite dget_dset_nat by lia. destruct (k =? r) eqn:E.
+  - assert (Nat.eqb (Z.to_nat k) (Z.to_nat r) = true) as -> by (apply Nat.eqb_eq; lia). reflexivity.
+  - assert (Nat.eqb (Z.to_nat k) (Z.to_nat r) = false) as -> by (apply Nat.eqb_neq; lia). reflexivity.
+Qed.
+Lemma length_dset v r x : length (dset v r x) = length v.
+Proof. unfold dset. destruct (r <? 0); [reflexivity|apply length_dset_nat]. Qed.
+
+Lemma a_upd1_refines p nr m c f g x : 0 <= c -> a_col m c = Some x ->
+  read_col p nr (a_i2r m) (f x) = g (read_col p nr (a_i2r m) x) ->
+  match a_upd1 m c f with Some m' => Some (a_abs p nr m') = d_upd (a_abs p nr m) c g | None => False end.
+Proof.
+  intros Hc Hx Hfg. unfold a_upd1. rewrite Hx. unfold d_upd, d_col. rewrite !a_abs_cols.
+  rewrite lget_map by reflexivity. unfold a_col in Hx. rewrite Hx. cbn [abs_col].
+  f_equal. unfold a_abs. cbn [a_with_cols a_cols a_next a_i2r d_cols d_next d_cls]. f_equal.
+  change (map (fun o => match o with Some c => Some (map (fun r => c_get p c (pget (a_i2r m) (Z.of_nat r))) (seq 0 nr)) | None => None end))
+    with (map (abs_col p nr (a_i2r m))).
+  rewrite map_lset by reflexivity. f_equal. cbn [abs_col]. f_equal. exact Hfg.
+Qed.
+
+Theorem matrix_zero_entry_refines fl p nr m c r x : 0 < p -> 0 <= c -> a_col m c = Some x ->
+  0 <= r < Z.of_nat nr ->
+  (forall k, 0 <= k < Z.of_nat nr -> pget (a_r2i m) (pget (a_i2r m) k) = k) ->
+  match a_zero_entry fl p m c r with Some m' => Some (a_abs p nr m') = d_zero_entry (a_abs p nr m) c r | None => False end.
+Proof.
+  intros Hp Hc Hx Hr Hinv. unfold a_zero_entry, d_zero_entry. apply a_upd1_refines with x; try assumption.
+  apply dvec_ext.
+  - rewrite length_dset, !length_read_col. reflexivity.
+  - intros k Hk. rewrite length_read_col in Hk. rewrite dget_dset by (rewrite ?length_read_col; lia).
+    rewrite !read_col_get by exact Hk. rewrite c_clear_row_content by exact Hp.
+    destruct (k =? r) eqn:E.
+    + assert (k = r) by lia. subst k. rewrite Z.eqb_refl. reflexivity.
+    + destruct (pget (a_i2r m) k =? pget (a_i2r m) r) eqn:E2; [|reflexivity].
+      assert (pget (a_i2r m) k = pget (a_i2r m) r) as Heq by lia.
+      pose proof (Hinv k Hk) as H1. pose proof (Hinv r Hr) as H2. rewrite Heq in H1. lia.
+Qed.
+
+Lemma c_clear_content p c q : c_get p (c_clear c) q = 0.
+Proof. destruct c; reflexivity. Qed.
+Theorem matrix_zero_column_refines p nr m c x : 0 <= c -> a_col m c = Some x ->
+  match a_zero_col m c with Some m' => Some (a_abs p nr m') = d_zero_col nr (a_abs p nr m) c | None => False end.
+Proof.
+  intros Hc Hx. unfold a_zero_col, d_zero_col. apply a_upd1_refines with x; try assumption.
+  unfold read_col, dzero. rewrite (map_ext _ (fun _ => 0)) by (intros a; apply c_clear_content).
+  generalize 0%nat. induction nr as [|n IH]; intros st; [reflexivity|]. cbn [seq map repeat]. rewrite IH. reflexivity.
+Qed.
